@@ -14,7 +14,7 @@ RULE = ('programs x placements of K<=2 (thorough: sampled K=3) requests from {pa
 RULE += ('; also: aborted / restarted stepping tasks, one-shot state callbacks, programs with awkward values (uncopyable outputs, bare Kill()), processes recreated from a checkpoint, observers and cleanups that fail (function / partial / callable object), and the repository\'s own test suite run under the same edge oracle (pv/suitemon.py)')
 ASSUMPTIONS = ['lifecycle hooks do not raise (C03 owns that)', 'single-threaded deterministic event loop, no timers',
                'private attributes are read for coverage accounting only']
-REQUIRED = ['transitions', 'acts_after_terminal', 'samples', 'oneshot_callbacks_fired', 'recreated_with_broken_observers', 'failing_cleanup_runs', 'suite_edges', 'suite_processes', 'communicator_fault_runs']
+REQUIRED = ['transitions', 'acts_after_terminal', 'samples', 'oneshot_callbacks_fired', 'recreated_with_broken_observers', 'failing_cleanup_runs', 'suite_edges', 'suite_processes', 'communicator_fault_runs', 'acts_in_exit_hooks']
 ALPHABET = [['pause', 'p'], ['play'], ['kill', 'k'], ['resume', ['v']], ['fail', 'f'], ['soon_ok', 'c'], ['soon_raise', 'c']]
 BOUNDS = {'quick': 'basic program family (14) K<=2 exhaustive over slots + 8 random programs (K=2 quarter-sampled)', 'thorough': 'K=3 exhaustive on 4 key programs, + 40 random programs, K=3 sampled'}
 
@@ -57,6 +57,13 @@ def _gen_cases(tier, seed):
                 plist.append([{'at': s0, 'act': ['pause', 'p']}, {'at': 'q', 'act': ['abort_task']}, {'at': 'q', 'act': ['restart_task']}, {'at': 'q', 'act': end}])
                 plist.append([{'at': s0, 'act': ['abort_task']}, {'at': 'q', 'act': end}])
                 plist.append([{'at': s0, 'act': ['abort_task']}, {'at': 'q', 'act': ['restart_task']}, {'at': 'q', 'act': end}])
+        # requests made from inside the process's own exit hooks, which do not raise (in the middle of a transition: the state being left
+        # has not been left yet, the next one is not entered yet), alone and followed by a request at the next quiescent point
+        for label, k in [('running', k) for k in range(1, len(prog['steps']) + 2)] + [('waiting', k) for k in (1, 2)]:
+            for act in (['cancel_future'], ['pause', 'p'], ['play'], ['soon_ok', 'c'], ['soon_raise', 'c'], ['soon_kill', 'k']):
+                plist.append([{'at': ['exit', label, k], 'act': act}])
+                for end in (['kill', 'k2'], ['fail', 'f'], ['play'], ['resume', ['v']]):
+                    plist.append([{'at': ['exit', label, k], 'act': act}, {'at': 'q', 'act': end}])
         if tier == 'thorough':
             plist += list(plans.sampled_placements(rng, n, ALPHABET, 3, 300))
         deep = ()
@@ -146,6 +153,10 @@ def run_case(case):
             obs['acts_after_terminal'] += 1
         k = '%s@%s' % (a['kind'], a['phase'])
         obs['acts'][k] = obs['acts'].get(k, 0) + 1
+        if str(a.get('via', '')).startswith('exit/'):
+            k = '%s in on_exit_%s' % (a['kind'], a['via'].split('/')[1])
+            obs.setdefault('acts_in_exit_hooks', {})
+            obs['acts_in_exit_hooks'][k] = obs['acts_in_exit_hooks'].get(k, 0) + 1
     res = {'viol': viol, 'obs': obs, 'inconclusive': rec['inconclusive'],
            'key': [case['name'], case['plan'], case.get('oneshot'), case.get('recreate'), case.get('listener'), case.get('failing_cleanups')],
            'nontrivial': bool(case['plan']) and bool(rec['final'] and rec['final']['terminated'])}
